@@ -3,3 +3,9 @@
 //! driven to its end by a script of the events its `select!` can see.
 //! Add-only; see `router_handler::verif_session_end`.
 pub use crate::units::bgp_tcp_in::router_handler::verif_session_end::*;
+
+/// The real `handle_connection` over a real TCP stream (see
+/// `router_handler::verif_connection`).
+pub mod connection {
+    pub use crate::units::bgp_tcp_in::router_handler::verif_connection::*;
+}
